@@ -111,6 +111,13 @@ def compare(root: Any, what: str, key: str) -> Optional[tuple[str, str]]:
     c1, c2 = O.comment_lines(root), O.comment_lines(again)
     if c1 != c2:
         return (f'comments:{key}', f'after {what}: block comment lines {c1!r} re-parse as {c2!r}; printed {text!r}')
+    # the values of the comments (who owns them aside): compared block by block when no two blocks were merged by the re-parse
+    b1 = [t for t in O.store_tokens(root.token_store) if isinstance(t, O.BlockComment)]
+    b2 = [t for t in O.store_tokens(again.token_store) if isinstance(t, O.BlockComment)]
+    if len(b1) == len(b2):
+        for x, y in zip(b1, b2):
+            if x.value != y.value:
+                return (f'comment-value:{key}', f'after {what}: a block comment with value {x.value!r} (printed {x.raw_text!r}) re-parses with value {y.value!r}')
     return None
 
 
